@@ -842,7 +842,27 @@ class Flow(object):
                     atoms |= self.sym(sub, a).atoms()
                 except AnalysisError:
                     pass
-        return self._available(atoms, a, node)
+        if not self._available(atoms, a, node):
+            return False
+        # a container the condition mentions is mutated in place (x.remove(),
+        # x[k] = v, ...) on a path from the test to ``node`` that does not
+        # pass the test again: what was established about it is gone
+        names = set(chain(x) for x in ast.walk(a.ast)
+                    if isinstance(x, (ast.Name, ast.Attribute)) and
+                    isinstance(getattr(x, "ctx", None), ast.Load))
+        names.discard(None)
+        after_a = None
+        for d in self.defs:
+            if d.mode != "mut" or d.node is a or not any(
+                    d.var == v or v.startswith(d.var + ".") for v in names):
+                continue
+            if after_a is None:
+                after_a = self.cfg.reachable_from(a, avoid=[a])
+            if d.node.id in after_a and (
+                    d.node is not node and node.id in self.cfg.reachable_from(
+                        d.node, avoid=[a])):
+                return False
+        return True
 
     def facts(self, node):
         """[(cond expr, polarity, assume node)] for every assume node that
